@@ -11,6 +11,10 @@
 //
 // A panic in the batchLoader goroutine kills the child; the parent sees a dead child and records it as
 // the outcome of the request. calcChunkSize is also driven directly on generated size vectors.
+// Scenario kind "slots" (slots.go): histories of FetchDocs calls (live, cancelled, deadline passed, failing
+// siblings) on the store's one long-lived Fetcher with the taken worker slots read after every call, then
+// ordinary requests under a deadline. docscache.go: the docs block cache in front of disk.DocsReader on sparse
+// files with blocks 2^32 bytes apart. unit.go: the position layer. gen.go: the translated Go functions.
 // The observations are written as Coq cases (props/C04/coq/CaseDefs.v).
 package main
 
